@@ -367,9 +367,7 @@ def check_filter_step(pva, w_rel, acc_n, with_altitude, T, dt_imu=0.02, out=None
     curvF = sum(np.abs(ends[i][0] - 2 * mids[i][0] + ends[i + 1][0]) * Ts[i] / 3 for i in range(len(Ts)))
     curvB = sum(np.abs(ends[i][1] - 2 * mids[i][1] + ends[i + 1][1]) * Ts[i] / 3 for i in range(len(Ts)))
     varF = sum(np.abs(ends[i + 1][0] - ends[i][0]) for i in range(len(Ts)))
-    varFT = sum(np.abs(ends[i + 1][0] - ends[i][0]) * Ts[i] / 2 for i in range(len(Ts)))
     dBm = sum(np.abs(ends[i + 1][1] - ends[i][1]) for i in range(len(Ts)))
-    dBmT = sum(np.abs(ends[i + 1][1] - ends[i][1]) * Ts[i] / 2 for i in range(len(Ts)))
     if not with_altitude:
         hs = _t23() @ H_STATE
         eps = _t23() @ EPS_ROW
@@ -389,7 +387,11 @@ def check_filter_step(pva, w_rel, acc_n, with_altitude, T, dt_imu=0.02, out=None
     if not with_altitude:
         PVP = _t23() @ PVP @ _t23().T
     disc = dt * an0 * T * (M @ PVP)
-    tol = 4 * (E2 + Nb * T + 2 * curvF + varFT + (varF @ M + M @ varF) * T * T + disc) \
+    # (no first-difference term |F_{i+1} - F_i| T_i / 2 here: that is exactly what a rectangle rule instead of the
+    #  trapezoid would produce, and it must stay visible; the curvature term bounds the trapezoid's own error)
+    # the kernel evaluates its coefficients at the start of each IMU step: a lag of dt/2, i.e. |dF/dt| dt/2 per unit time
+    lagF = varF * dt
+    tol = 4 * (E2 + Nb * T + 2 * curvF + lagF + (varF @ M + M @ varF) * T * T + disc) \
         + floor + 1e-6 * np.abs(PhiM)
     if not with_altitude:
         # the harness feeds constant body-frame readings; over T the vertical specific force then departs from the
@@ -405,7 +407,7 @@ def check_filter_step(pva, w_rel, acc_n, with_altitude, T, dt_imu=0.02, out=None
     d = np.abs(Phi - PhiM)
     rat = float((d / tol).max())
     if out is not None:
-        out.update(d=d, tol=tol, E2=E2, NbT=Nb * T, curvF=curvF, varFT=varFT, cross=(varF @ M + M @ varF) * T * T, floor=floor)
+        out.update(d=d, tol=tol, E2=E2, NbT=Nb * T, curvF=curvF, cross=(varF @ M + M @ varF) * T * T, floor=floor)
     if rat > 1:
         i, k = np.unravel_index(np.argmax(d / tol), d.shape)
         fails.append(("propagate_errors' transition over the filter step(s) disagrees with the integrator's measured "
@@ -416,7 +418,7 @@ def check_filter_step(pva, w_rel, acc_n, with_altitude, T, dt_imu=0.02, out=None
     wn = float(np.linalg.norm(w)) + 1e-3
     an = float(np.linalg.norm(acc_n)) + 1.0
     Tm = max(Ts)
-    tolS = 4 * (E1 @ Bm * T / 2 + Nb @ Bm * T * T + 2 * curvB + dBmT + M @ dBm * T * T +
+    tolS = 4 * (E1 @ Bm * T / 2 + Nb @ Bm * T * T + 2 * curvB + M @ dBm * T * T +
                 T * (wn * Tm) ** 2 * (Bm @ MIX) / 8 + T * (wn * Tm) * (an * Tm) * (DVG if with_altitude else _t23() @ DVG) / 4) + \
         100 * (n + 1) * eps[:, None] / H_SENS[None, :] + 1e-6 * np.abs(SM)
     dS = np.abs(S - SM)
@@ -554,10 +556,14 @@ def numeric_statements(r, n_states, n_filter, seed_shift=0):
     # fixed cases run first: steep pitch with roll != pitch (output/internal transforms far from diagonal),
     # unequal filter steps, both modes
     fixed = [(True, [40.0, 20.0, 1000.0, 100.0, 50.0, -5.0, -10.0, 75.0, 100.0], [0.2, 1.0]),
-             (False, [-40.0, -120.0, 3000.0, -150.0, 80.0, 0.0, 25.0, -78.0, -160.0], [1.0, 0.2])]
-    for with_alt, vals, T in fixed:
+             (False, [-40.0, -120.0, 3000.0, -150.0, 80.0, 0.0, 25.0, -78.0, -160.0], [1.0, 0.2]),
+             # fast attitude change between coarse table stamps (20 deg/s turn, 1 s table): B(t) moves appreciably
+             (True, [30.0, 50.0, 500.0, 60.0, -40.0, 2.0, 5.0, 10.0, -30.0], [1.0, 1.0], [0.05, -0.04, 0.35]),
+             (False, [-30.0, 50.0, 500.0, 60.0, 40.0, 0.0, -5.0, 8.0, 140.0], [1.0, 0.5], [0.0, 0.0, -0.35])]
+    for fx in fixed:
+        with_alt, vals, T = fx[0], fx[1], fx[2]
         pva = pd.Series(vals, index=COLS, dtype=float)
-        w, acc = np.array([0.02, -0.03, 0.05]), np.array([1.0, -0.5, 0.3])
+        w, acc = np.array(fx[3] if len(fx) > 3 else [0.02, -0.03, 0.05]), np.array([1.0, -0.5, 0.3])
         rep = dict(kind='filter_step', with_altitude=with_alt, T=T, pva=vals, w=list(w / 0.2), acc=list(acc / 0.3))
         r.case(('flt-fixed', with_alt, str(T)), sample=rep)
         fl, rat = check_filter_step(pva, w, acc, with_alt, T)
